@@ -218,8 +218,12 @@ def _sym_expr_access_type(
             for inst in decoder.get_instructions(block)
             if inst.address <= expr_addr < (inst.address + inst.size)
         )
-        if instruction.group(capstone.CS_GRP_JUMP) or instruction.group(
-            capstone.CS_GRP_CALL
+        # Some relative branches (x86's loop family, MIPS's bal) are in
+        # neither the jump nor the call group.
+        if (
+            instruction.group(capstone.CS_GRP_JUMP)
+            or instruction.group(capstone.CS_GRP_CALL)
+            or instruction.group(capstone.CS_GRP_BRANCH_RELATIVE)
         ):
             return _SymExprAttributeRule.AccessType.CONTROL_FLOW
         else:
